@@ -142,20 +142,45 @@ theorem mkCat_iff (a b : Re) (p n : Option UInt8) (m : Bytes) :
   | alt x y => cases b <;> first | exact hfailR _ | exact Iff.rfl
   | star x => cases b <;> first | exact hfailR _ | exact Iff.rfl
 
+theorem altMem_matches (a b : Re) (p n : Option UInt8) (m : Bytes) (h : altMem a b = true)
+    (hm : Matches a p m n) : Matches b p m n := by
+  induction b with
+  | alt x y ihx ihy =>
+    simp only [altMem, Bool.or_eq_true] at h
+    rw [alt_iff]
+    rcases h with h | h
+    · exact Or.inl (ihx h)
+    · exact Or.inr (ihy h)
+  | fail => simp only [altMem, beq_iff_eq] at h; exact h ▸ hm
+  | eps => simp only [altMem, beq_iff_eq] at h; exact h ▸ hm
+  | cls neg rs => simp only [altMem, beq_iff_eq] at h; exact h ▸ hm
+  | asrt x => simp only [altMem, beq_iff_eq] at h; exact h ▸ hm
+  | cat x y _ _ => simp only [altMem, beq_iff_eq] at h; exact h ▸ hm
+  | star x _ => simp only [altMem, beq_iff_eq] at h; exact h ▸ hm
+
+theorem mkAlt_dedupe (a b : Re) (p n : Option UInt8) (m : Bytes) :
+    Matches (if altMem a b then b else .alt a b) p m n ↔ Matches (.alt a b) p m n := by
+  split
+  · rename_i h
+    rw [alt_iff]
+    exact ⟨Or.inr, fun h' => h'.elim (altMem_matches a b p n m h) id⟩
+  · exact Iff.rfl
+
 theorem mkAlt_iff (a b : Re) (p n : Option UInt8) (m : Bytes) :
     Matches (mkAlt a b) p m n ↔ Matches (.alt a b) p m n := by
+  have hD := mkAlt_dedupe a b p n m
   have hL : ∀ b, (Matches b p m n ↔ Matches (.alt .fail b) p m n) := by
     intro b; rw [alt_iff, fail_iff]; simp
   have hR : ∀ a, (Matches a p m n ↔ Matches (.alt a .fail) p m n) := by
     intro a; rw [alt_iff, fail_iff]; simp
   cases a with
   | fail => exact hL b
-  | eps => cases b <;> first | exact hR _ | exact Iff.rfl
-  | cls neg rs => cases b <;> first | exact hR _ | exact Iff.rfl
-  | asrt x => cases b <;> first | exact hR _ | exact Iff.rfl
-  | cat x y => cases b <;> first | exact hR _ | exact Iff.rfl
-  | alt x y => cases b <;> first | exact hR _ | exact Iff.rfl
-  | star x => cases b <;> first | exact hR _ | exact Iff.rfl
+  | eps => cases b <;> first | exact hR _ | exact hD
+  | cls neg rs => cases b <;> first | exact hR _ | exact hD
+  | asrt x => cases b <;> first | exact hR _ | exact hD
+  | cat x y => cases b <;> first | exact hR _ | exact hD
+  | alt x y => cases b <;> first | exact hR _ | exact hD
+  | star x => cases b <;> first | exact hR _ | exact hD
 
 /-! ### derivatives -/
 
